@@ -103,6 +103,27 @@ def Link.run (l : Link) (transform : V3 → V3) : List V3 → Link
   | [] => l
   | p :: ps => Link.run (Link.update { l with leader := p } transform) transform ps
 
+/-- what a caller can do with a link: move the leader, ask `transform()` where the follower would go, call `update()` -/
+inductive LinkEv where
+  | move (p : V3)
+  | query
+  | update
+  deriving Repr
+
+def LinkEv.isQuery : LinkEv → Bool
+  | .query => true
+  | _ => false
+
+/-- one event: the state is the link and the answers the queries got so far; `transform()` reads the leader and
+    changes nothing -/
+def Link.step (transform : V3 → V3) (s : Link × List V3) : LinkEv → Link × List V3
+  | .move p => ({ s.1 with leader := p }, s.2)
+  | .query => (s.1, s.2 ++ [transform s.1.leader])
+  | .update => (Link.update s.1 transform, s.2)
+
+def Link.runEv (transform : V3 → V3) (s : Link × List V3) (evs : List LinkEv) : Link × List V3 :=
+  evs.foldl (Link.step transform) s
+
 /-- `GridBase.update(index, position)`: the leader point is set, then EVERY link of that junction is given the new
     leader, updated, and its follower is written to the follower's grid point (links: follower index and the link's
     `transform`) -/
@@ -131,50 +152,6 @@ def rotValid (a o l0 l1 f0 f1 : V3) (eps : Rat) : Option String :=
   else if absR (V3.dot (V3.cross rf0 rf1) a * V3.norm2 rl0 - V3.dot (V3.cross rl0 rl1) a * V3.norm2 rf0) > eps * scale * scale * (1 + aa)
       && absR (V3.norm2 rl1 - V3.norm2 rl0) ≤ eps * scale then some "sin"
   else none
-
-/-! ### what the definitions above transcribe -/
-
-/-- the expression / statements of the source each model definition is the transcription of (regenerated from the
-    source into `Gen.c17Source` on every run; `T_C17_source` proves the two tables equal) -/
-def sourceTable : List (String × List String) := [
-  -- lineClamp: `t/s (p2 − p1)`, `s` the witness of `f.norm`; default bounds `[0, s]` (`lineInitParam … 0 s`)
-  ("LineClamp.function", ["point_1 + t[0] * f.unit_vector(point_2 - point_1)"]),
-  ("LineClamp.bounds", ["(0, f.norm(point_2 - point_1))"]),
-  ("LineClamp.initial_guess", ["[0]"]),
-  -- radialClamp: rotation of the creation point about (center, normal)
-  ("RadialClamp.function", ["f.rotate(initial_point, params[0] / radius, normal, center)"]),
-  ("RadialClamp.radius", ["f.point_to_line_distance(center, normal, position)"]),
-  ("RadialClamp.initial_guess", ["[0]"]),
-  -- curveLine / polyEval: the clamp evaluates the curve at its single parameter, bounds are the curve's
-  ("CurveClamp.function", ["curve.get_point(t[0])"]),
-  ("CurveClamp.initial", ["[initial_param]", "[curve.get_closest_param(position)]"]),
-  ("CurveClamp.super", ["super().__init__(position, lambda t: curve.get_point(t[0]), [list(curve.bounds)], initial)"]),
-  -- planeClamp / surfPlane
-  ("PlaneClamp.function", ["point + params[0] * u_dir + params[1] * v_dir"]),
-  ("PlaneClamp.u_dir", ["f.unit_vector(np.cross(random_dir, normal))"]),
-  ("PlaneClamp.v_dir", ["f.unit_vector(np.cross(u_dir, normal))"]),
-  ("PlaneClamp.initial_guess", ["[0, 0]"]),
-  ("ParametricSurfaceClamp.initial_guess", ["self.initial_params", "[0, 0]"]),
-  -- every clamp: position = function(params); a fresh clamp minimises the distance to the creation position
-  ("ClampBase.update_params", ["self.params = params", "self.position = self.function(self.params)"]),
-  ("ClampBase.get_params.distance", ["f.norm(self.position - self.function(params))"]),
-  -- curveLine
-  ("LineCurve.function", ["self.point_1.position + self.vector * t"]),
-  ("LineCurve.vector", ["self.point_2.position - self.point_1.position"]),
-  -- Link.update
-  ("LinkBase.update", ["new_position = self.transform()", "self.follower = new_position"]),
-  -- translationLink
-  ("TranslationLink.vector", ["self.follower - self.leader"]),
-  ("TranslationLink.transform", ["self.leader + self.vector"]),
-  -- rotationLink: always the ORIGINAL follower, turned by the angle between the original and the current radius
-  ("RotationLink.transform", ["f.rotate(self.orig_follower_pos, angle, self.axis, self.origin)"]),
-  ("RotationLink.orig_follower_pos", ["np.copy(self.follower)"]),
-  ("RotationLink.prev_radius", ["self.orig_leader_radius"]),
-  ("RotationLink._get_radius", ["point - self.origin - self._get_height(point)"]),
-  ("RotationLink._get_height", ["np.dot(point - self.origin, self.axis) * self.axis"]),
-  -- symmetryLink
-  ("SymmetryLink._get_follower", ["f.mirror(self.leader, self.normal, self.origin)"]),
-  ("SymmetryLink.transform", ["self._get_follower()"])]
 
 /-! ### line protocol -/
 
